@@ -148,8 +148,12 @@ def function_ast(fn):
         raise Unsupported(f"cannot locate def of {fn!r}")
     loops = [n for n in ast.walk(node) if isinstance(n, (ast.For, ast.While))]
     loops.sort(key=lambda n: (n.lineno, n.col_offset))
+    kcount = {}
     for i, n in enumerate(loops):
         n._pyvc_ord = i
+        kind = "for" if isinstance(n, ast.For) else "while"
+        n._pyvc_kord = (kind, kcount.get(kind, 0))
+        kcount[kind] = kcount.get(kind, 0) + 1
     res = (node, code.co_filename, first - 1)
     _SRC_CACHE[code] = res
     return res
@@ -814,7 +818,7 @@ class Interp:
         frame.locals[node.name] = f
 
     def x_While(self, node, frame):
-        spec = self.loop_specs.get((frame.qualname, _loop_ordinal(node, frame)))
+        spec = _find_loop_spec(self.loop_specs, node, frame)
         if spec is not None:
             _check_loop_kind(spec, "while", frame)
             yield from spec.run(self, node, frame)
@@ -832,7 +836,7 @@ class Interp:
                 continue
 
     def x_For(self, node, frame):
-        spec = self.loop_specs.get((frame.qualname, _loop_ordinal(node, frame)))
+        spec = _find_loop_spec(self.loop_specs, node, frame)
         if spec is not None:
             _check_loop_kind(spec, "for", frame)
             yield from spec.run(self, node, frame)
@@ -1394,6 +1398,16 @@ def _check_loop_kind(spec, kind, frame):
     want = getattr(spec, "kind", None)
     if want is not None and want != kind:
         raise Unsupported(f"loop rule for a {want}-loop met a {kind}-loop in {frame.qualname} (function was restructured)")
+
+
+def _find_loop_spec(specs, node, frame):
+    """loop rules are keyed (function, n-th loop) or (function, kind, n-th loop of that kind); a rule keyed with function
+    "*" applies to the n-th loop of its kind in whatever interpreted function contains it (used where a unit interprets one
+    function only and everything it calls is under contract, so that renaming / wrapping that function keeps the rule)"""
+    if not specs:
+        return None
+    kord = tuple(getattr(node, "_pyvc_kord", ("?", -1)))
+    return specs.get((frame.qualname, _loop_ordinal(node, frame))) or specs.get((frame.qualname,) + kord) or specs.get(("*",) + kord)
 
 
 def _loop_ordinal(node, frame):
